@@ -11,6 +11,7 @@ import (
 	"strings"
 
 	mail "github.com/wneessen/go-mail"
+	"verif/harness/bytex"
 	"verif/harness/hx"
 )
 
@@ -32,6 +33,72 @@ func render(m *mail.Msg) ([]byte, error) {
 	var buf bytes.Buffer
 	_, err := m.WriteTo(&buf)
 	return buf.Bytes(), err
+}
+
+// runMix renders a multi-part message byte-exactly against the model and checks the line discipline of the whole
+// output (short names and values: no line of the message may exceed 76 characters, none may contain a bare CR/LF).
+func runMix(r *hx.Run, c hx.Case) {
+	item := func(s string) [][2]string {
+		if s == "-" {
+			return nil
+		}
+		var out [][2]string
+		for _, it := range strings.Split(s, ",") {
+			f := strings.SplitN(it, ":", 2)
+			out = append(out, [2]string{f[0], f[1]})
+		}
+		return out
+	}
+	spec := bytex.MsgSpec{From: "from@x.test", To: []string{"to@y.test"}, Enc: c.Args[0], Gen: []bytex.KV{{K: "Subject", V: []string{"mix"}}}}
+	chunksOf := func(h string) [][]byte {
+		var out [][]byte
+		for _, x := range strings.Split(h, "+") {
+			out = append(out, hx.UnHex(x))
+		}
+		return out
+	}
+	for i, p := range item(c.Args[1]) {
+		ct := []string{"text/plain", "text/html", "text/x-third"}[i%3]
+		spec.Parts = append(spec.Parts, bytex.PartSpec{CType: ct, Enc: p[0], Prod: bytex.Producer{Chunks: chunksOf(p[1])}})
+	}
+	for i, f := range item(c.Args[2]) {
+		spec.Embeds = append(spec.Embeds, bytex.FileSpec{Name: fmt.Sprintf("e%d.bin", i), Enc: f[0], Prod: bytex.Producer{Chunks: chunksOf(f[1])}})
+	}
+	for i, f := range item(c.Args[3]) {
+		spec.Attach = append(spec.Attach, bytex.FileSpec{Name: fmt.Sprintf("a%d.bin", i), Enc: f[0], Prod: bytex.Producer{Chunks: chunksOf(f[1])}})
+	}
+	bytex.ResetRand()
+	m, err := spec.Build()
+	if err != nil {
+		r.Fail(c.ID, "harness-build", err.Error())
+		return
+	}
+	desc := bytex.Describe(m, &spec, [3]string{}, bytex.DrawnBoundaries(0, 4))
+	sink := &bytex.Sink{K: -1}
+	_, werr, pan := bytex.SafeWriteTo(m, sink)
+	if pan != nil || werr != nil {
+		r.Fail(c.ID, "render-failed", fmt.Sprint(pan, werr))
+		return
+	}
+	out := sink.Accepted
+	r.Add(hx.Case{ID: c.ID, Kind: "render", Args: append([]string{desc, "inf", "mix"}, c.Args...)}, fmt.Sprintf("ok %d %s", len(out), hx.Hex(out)), true)
+	all8 := true
+	for _, l := range [][][2]string{item(c.Args[1]), item(c.Args[2]), item(c.Args[3])} {
+		for _, it := range l {
+			e := it[0]
+			if e == "" {
+				e = "x"
+			}
+			if e != "8bit" {
+				all8 = false
+			}
+		}
+	}
+	_ = all8
+	// every body here is quoted-printable or base64 (the generator uses no 8bit body), every name and value is short
+	if cl, d := checkLines(out, 76, false); cl != "" {
+		r.Fail(c.ID, "mix-"+cl, d)
+	}
 }
 
 // splitHeaderBody splits at the first empty line.
@@ -165,6 +232,17 @@ func runCase(r *hx.Run, c hx.Case) {
 		if cl, d := checkLines(body, 76, false); cl != "" {
 			r.Fail(c.ID, c.Kind+"-"+cl, d)
 		}
+	case "render":
+		// replay of the model-side line of a mix case: <desc> inf mix <msgenc> <parts> <embeds> <attach>
+		if len(c.Args) >= 7 && c.Args[2] == "mix" {
+			runMix(r, hx.Case{ID: c.ID, Kind: "mix", Args: c.Args[3:7]})
+		} else {
+			r.Fail(c.ID, "bad-replay", "unknown render case")
+		}
+	case "mix":
+		// a multipart message whose parts and files use different transfer encodings in a given order (the writer's
+		// per-body scratch state must not leak from one body into the next): args <msgenc> <parts enc:chunks,…> <embeds> <attach>
+		runMix(r, c)
 	case "b64f":
 		// base64 attachment inside multipart/mixed, chunked file writer
 		chunks := hx.UnHexList(c.Args[0])
@@ -400,6 +478,47 @@ func Run(r *hx.Run, replay []hx.Case) {
 				continue
 			}
 			runCase(r, hx.Case{ID: r.NewID(), Kind: "qp", Args: []string{hx.HexList(ch)}})
+		}
+	}
+	// multi-part messages: every ordered pair / triple of encodings over body parts and files; contents whose
+	// base64 form ends in a partial line (length not a multiple of 57) and quoted-printable text without a final line break
+	{
+		encs := []string{"quoted-printable", "base64"}
+		conts := func(i int) string {
+			l := [][]byte{[]byte("no final line break"), bytes.Repeat([]byte("x"), 58), []byte("line one\r\nline two"), bytes.Repeat([]byte("0123456789"), 11),
+				[]byte("ends with break\r\n"), bytes.Repeat([]byte{0xc3, 0xa4}, 40)}
+			b := l[i%len(l)]
+			if i%2 == 0 && len(b) > 20 {
+				return hx.Hex(b[:7]) + "+" + hx.Hex(b[7:])
+			}
+			return hx.Hex(b)
+		}
+		k := 0
+		mk := func(es ...string) string {
+			var it []string
+			for _, e := range es {
+				it = append(it, e+":"+conts(k))
+				k++
+			}
+			if len(it) == 0 {
+				return "-"
+			}
+			return strings.Join(it, ",")
+		}
+		for _, me := range []string{"quoted-printable", "base64"} {
+			for _, a := range encs {
+				for _, b := range encs {
+					for rep := 0; rep < 3; rep++ {
+						runCase(r, hx.Case{ID: r.NewID(), Kind: "mix", Args: []string{me, mk(a, b), "-", "-"}})
+						runCase(r, hx.Case{ID: r.NewID(), Kind: "mix", Args: []string{me, mk(a), "-", mk(b)}})
+						runCase(r, hx.Case{ID: r.NewID(), Kind: "mix", Args: []string{me, mk(a), mk(b), "-"}})
+						for _, c3 := range encs {
+							runCase(r, hx.Case{ID: r.NewID(), Kind: "mix", Args: []string{me, mk(a), mk(b), mk(c3)}})
+							runCase(r, hx.Case{ID: r.NewID(), Kind: "mix", Args: []string{me, mk(a, b), "-", mk(c3, a)}})
+						}
+					}
+				}
+			}
 		}
 	}
 	// header values: words of length 0..300, multiple / leading / trailing blanks
